@@ -12,7 +12,8 @@ KEYWORDS = ['break', 'case', 'catch', 'continue', 'debugger', 'default', 'delete
             'function', 'if', 'in', 'instanceof', 'new', 'return', 'switch', 'this', 'throw', 'try', 'typeof', 'var',
             'void', 'while', 'with', 'null', 'true', 'false', 'class', 'const', 'enum', 'export', 'extends',
             'import', 'super']
-IDENTS = gp.IDS_COMMON + gp.IDS_ODD + ['breakx', 'xbreak', 'New', 'IF', 'nullish', 'truer', 'functions', 'ina',
+IDENTS = gp.IDS_COMMON + gp.IDS_ODD + [u'a1\u00e9', u'x\u0300\u03a9', u'a\u203f\u0434', u'$\u0663\u65e5', u'\u00e91\u00e9',
+                                        'breakx', 'xbreak', 'New', 'IF', 'nullish', 'truer', 'functions', 'ina',
                                        u'\u00e5ngstr\u00f6m', u'\u03c0', u'\u05d0\u05d1', u'\u0627\u0628', u'\u0915\u093e',
                                        u'\u3042\u3044', u'\ud55c\uae00', 'a_b', '__proto__', '$$', 'x0', u'a\u0301b',
                                        u'n\u0660', u'c\uff3f']
